@@ -391,6 +391,18 @@ pub fn judge(case: &Case, acc: &mut Acc) {
     let buf = &case.data;
     let reference = wire::decode(buf);
     let real = Message::from_bytes(buf);
+    // the TryFrom<&[u8]> conversion is the same parser
+    {
+        let via_try: Result<Message, _> = Message::try_from(&buf[..]);
+        let same = match (&real, &via_try) {
+            (Ok(a), Ok(b)) => real::iterate(a, 0) == real::iterate(b, 0) && a.get_type() == b.get_type() && a.transaction_id() == b.transaction_id(),
+            (Err(a), Err(b)) => format!("{a:?}") == format!("{b:?}"),
+            _ => false,
+        };
+        if !same {
+            viol!(acc, P, "try_from-vs-from_bytes", case, "Message::try_from(&[u8]) and Message::from_bytes disagree", format!("{:?}", real.as_ref().map(|_| "Ok").map_err(|e| format!("{e:?}"))), format!("{:?}", via_try.as_ref().map(|_| "Ok").map_err(|e| format!("{e:?}"))));
+        }
+    }
     match (&reference, real) {
         (Ok(m), Ok(msg)) => {
             acc.outcome("accepted by both");
